@@ -183,6 +183,10 @@ pub fn c07(ctx: &Ctx) -> PropResult {
             cases.push(Case::new(Kind::Lex, format!("x <- \"a{c}{d}b\" y")).tag("string-body"));
         }
     }
+    // escape sequences: every body of up to four characters over backslash, the escape letters, a quote and a letter
+    for body in all_strings(&["\\", "n", "r", "t", "\"", "a", "q"], 4) {
+        cases.push(Case::new(Kind::Lex, format!("s <- \"{body}\" x")).tag("escape-body"));
+    }
     // numeric literals denote the nearest double: long digit strings, with and without fraction, hard cases
     for lit in ["9.999999999999999", "1.7976931348623157", "0.30000000000000004", "9007199254740993", "9007199254740992.5", "4503599627370497.5", "0.1", "123456789012345678", "1234567890123456.78", "12345678901234567.8", "1.8446744073709551615", "18446744073709551615", "18446744073709551616", "0.000000000000000000001", "179769313486231570000000000000000000000", "2.2250738585072014", "2.2250738585072011", "8.41", "5.0000000000000001", "0.50000000000000011102230246251565404236316680908203125", "1.00000000000000011102230246251565404236316680908203125", "1.00000000000000011102230246251565404236316680908203124"] {
         cases.push(Case::new(Kind::Lex, format!("x <- {lit}")).tag("long-literal"));
@@ -361,6 +365,25 @@ pub fn c08(ctx: &Ctx) -> PropResult {
                 cases.push(Case::new(Kind::Parse, t.replace('@', &body)).tag("long-token-error"));
                 cases.push(Case::new(Kind::Parse, t.replace('@', &format!("\"{body}\""))).tag("long-token-error"));
             }
+        }
+    }
+    // several diagnostics at once, each kind first (the tool renders them as one bundle): statements that are
+    // rejected without a labelled range, with one, with several
+    let bads = ["RETURN 1", "BREAK", "CONTINUE", "x <- )", "1 <- 2", "IF (x {", "PROCEDURE (a) { }", "IMPORT 5", "x <- \"bad \\q\"", "f(1,, 2)", "REPEAT 2 { }", "y <- # 1", "z = 3", "IMPORT [\"A\" \"B\"] FROM MOD \"M\"", "PROCEDURE p(a a) { }", "FOR EACH IN x { }"];
+    for a in bads {
+        for b in bads {
+            cases.push(Case::new(Kind::Parse, format!("{a}\n{b}\n")).tag("two-diagnostics"));
+        }
+        cases.push(Case::new(Kind::Parse, format!("{a}\n{a}\n{a}\n")).tag("two-diagnostics"));
+    }
+    // integer and decimal literals of every length around the machine word sizes
+    for digits in [1usize, 9, 10, 15, 16, 17, 18, 19, 20, 21, 39, 40, 100, 308, 309, 310, 400] {
+        for d in ["1", "9"] {
+            let n = d.repeat(digits);
+            cases.push(Case::new(Kind::Parse, format!("x <- {n}\n")).tag("long-number"));
+            cases.push(Case::new(Kind::Parse, format!("x <- {n}.5\n")).tag("long-number"));
+            cases.push(Case::new(Kind::Parse, format!("x <- 0.{n}\n")).tag("long-number"));
+            cases.push(Case::new(Kind::Parse, format!("x <- l[{n}] + f({n})\n")).tag("long-number"));
         }
     }
     // string literals holding every pair of characters of the lexical alphabet (escapes valid and invalid, followed
